@@ -1,0 +1,49 @@
+//go:build verif
+
+package storage
+
+import "github.com/MixinNetwork/mixin/crypto"
+
+// Thin exported wrappers around the node-state writers for the C27 correspondence
+// harness. Each runs the writer in its own write transaction, committed only when the
+// writer returned nil (the discipline of WriteSnapshot/LoadGenesis).
+
+func (s *BadgerStore) VerifWriteNodePledge(signer, payee crypto.Key, tx crypto.Hash, timestamp uint64) error {
+	txn := s.snapshotsDB.NewTransaction(true)
+	defer txn.Discard()
+	err := writeNodePledge(txn, signer, payee, tx, timestamp)
+	if err != nil {
+		return err
+	}
+	return txn.Commit()
+}
+
+func (s *BadgerStore) VerifWriteNodeCancel(signer, payee crypto.Key, tx crypto.Hash, timestamp uint64) error {
+	txn := s.snapshotsDB.NewTransaction(true)
+	defer txn.Discard()
+	err := writeNodeCancel(txn, signer, payee, tx, timestamp)
+	if err != nil {
+		return err
+	}
+	return txn.Commit()
+}
+
+func (s *BadgerStore) VerifWriteNodeAccept(signer, payee crypto.Key, tx crypto.Hash, timestamp uint64, genesis bool) error {
+	txn := s.snapshotsDB.NewTransaction(true)
+	defer txn.Discard()
+	err := writeNodeAccept(txn, signer, payee, tx, timestamp, genesis)
+	if err != nil {
+		return err
+	}
+	return txn.Commit()
+}
+
+func (s *BadgerStore) VerifWriteNodeRemove(signer, payee crypto.Key, tx crypto.Hash, timestamp uint64) error {
+	txn := s.snapshotsDB.NewTransaction(true)
+	defer txn.Discard()
+	err := writeNodeRemove(txn, signer, payee, tx, timestamp)
+	if err != nil {
+		return err
+	}
+	return txn.Commit()
+}
